@@ -67,6 +67,16 @@ func c01Namespace() string {
 	for _, r := range c01Rules {
 		shards = append(shards, r.shard)
 	}
+	// two linked child tables per rule for the JOIN shapes: <table>_c1 shares the
+	// parent's key name, <table>_c2 has its own
+	for _, r := range c01Rules {
+		if r.name == "linked" {
+			continue
+		}
+		shards = append(shards,
+			fmt.Sprintf(`{"db":%q,"table":%q,"type":"linked","key":"k","parent_table":%q}`, r.db, r.table+"_c1", r.table),
+			fmt.Sprintf(`{"db":%q,"table":%q,"type":"linked","key":"ck","parent_table":%q}`, r.db, r.table+"_c2", r.table))
+	}
 	return `{"name":"ns_c01","online":true,"allowed_dbs":{"db_ks":true,"db_mycat":true},"default_phy_dbs":{"db_ks":"db_ks","db_mycat":"db_mycat_0"},
 "slices":[{"name":"slice-0","user_name":"root","password":"root","master":"127.0.0.1:3306","capacity":4,"max_capacity":8,"idle_timeout":3600},
 {"name":"slice-1","user_name":"root","password":"root","master":"127.0.0.1:3307","capacity":4,"max_capacity":8,"idle_timeout":3600}],
@@ -324,6 +334,8 @@ func genC01(g *core.Gen) {
 			c01Meta(rule), cond, ctx.universe())
 		g.Emit(in, "rule="+r.name, "stmt="+stmt, "root="+cond.Head(), fmt.Sprintf("form=%d", form))
 	}
+	genC01Join(g, rt)
+	genC01Start(g)
 }
 
 func c01Render(c core.Sexp, k, o string) string {
@@ -413,6 +425,12 @@ func c01SessionDB(r *c01Rule, form int) string {
 }
 
 func execC01(in core.Sexp) string {
+	switch in.Head() {
+	case "join":
+		return execC01Join(in)
+	case "eqstart":
+		return execC01Start(in)
+	}
 	rt, err := c01GetRouter()
 	if err != nil {
 		return "(setup-error " + core.Text(err.Error()).String() + ")"
@@ -463,11 +481,20 @@ func init() {
 		Rule: "random condition trees (depth ≤ 4 quick / 6 thorough; = != < <= > >= on either side, IN/NOT IN, BETWEEN/NOT BETWEEN, AND/OR/parentheses, 16 opaque predicate forms, sharding and other columns) " +
 			"over a boundary-rich literal universe per rule (range edges ±1, first/last second of calendar periods, mid-period, outside the configured span; date-only, datetime and unix spellings) for 14 rule configurations, " +
 			"rendered as SELECT/UPDATE/DELETE with plain, table-qualified, aliased and schema-qualified spellings; the Lean oracle checks every row value of the universe (placed by the real FindTableIndex) on which the condition may be TRUE; " +
-			"non-trivial = statement accepted and routed",
+			"non-trivial = statement accepted and routed; " +
+			"JOIN shapes: two or three tables out of a sharded table and its two linked child tables (one with the parent's key name, one with its own), in any order, with and without aliases, " +
+			"joined by JOIN / INNER / CROSS / STRAIGHT_JOIN / comma / LEFT [OUTER] / RIGHT [OUTER] with ON trees of the same grammar (columns qualified, unqualified, ambiguous, column = column), USING with plain and qualified columns, and WHERE; " +
+			"the oracle enumerates the combined rows (NULL extensions included) of universe values stored in the same sub table; " +
+			"EqualStart lines: the real RangeShard.EqualStart of range / date_year / date_month / date_day rules on period starts ±1 s, every spelling (date, datetime, fractions, malformed), timestamps in five fixed zones, right and wrong indexes",
 		Generate:   genC01,
 		Exec:       execC01,
-		Trivial:    func(in core.Sexp, out string) bool { return !strings.HasPrefix(out, "(ok") },
-		ShrinkKeep: []string{"meta", "lit"},
+		Trivial: func(in core.Sexp, out string) bool {
+			if in.Head() == "eqstart" {
+				return !strings.Contains(out, " t")
+			}
+			return !strings.HasPrefix(out, "(ok")
+		},
+		ShrinkKeep: []string{"meta", "lit", "tables", "steps", "other", "eqcol"},
 		Assumptions: []string{
 			"TZ=UTC for the harness process (unix-timestamp keys are interpreted in the proxy's time zone)",
 			"rows are stored where FindTableIndex places their key (C03/C09); the placement functions themselves are checked under C08/C09",
